@@ -168,6 +168,11 @@ func metaJSON(op *Op, data []byte) []byte {
 }
 
 func (r *Runner) upload(op *Op) string {
+	if op.Chunked {
+		r.E.NoLength = true
+		defer func() { r.E.NoLength = false }()
+		r.label("upload-without-content-length")
+	}
 	data := op.Data.Bytes()
 	b, n := op.Bucket, op.Name
 	ce := r.M.evalConds(op.Conds, b, n)
